@@ -788,6 +788,20 @@ func TestMalformedNumbers(t *testing.T) {
 	}
 }
 
+func listElem(r *gen.Node, i int) *gen.Node {
+	if r != nil && (r.Kind == gen.List || r.Kind == gen.Call) && len(r.Args) > i {
+		return r.Args[i]
+	}
+	return nil
+}
+
+func binY(r *gen.Node) *gen.Node {
+	if r != nil && r.Kind == gen.Binary {
+		return r.Y
+	}
+	return nil
+}
+
 func TestKeywordCase(t *testing.T) {
 	n := 0
 	for _, kw := range []struct {
@@ -816,9 +830,47 @@ func TestKeywordCase(t *testing.T) {
 			}
 			evid.Case(src, mask != 0, "keyword")
 			n++
+			// the same spelling inside a larger expression, right behind the tokens that may precede a word: a dot
+			// followed by a bracket or a back-quoted name, other literals, operators, brackets
+			for ci, ctx := range []struct {
+				pre, post string
+				dig       func(r *gen.Node) *gen.Node
+			}{
+				{"x = [.[0], ", "]", func(r *gen.Node) *gen.Node { return listElem(r, 1) }},
+				{"x = .[0][1] == ", "", func(r *gen.Node) *gen.Node { return binY(r) }},
+				{"x = a.`b c` == ", "", func(r *gen.Node) *gen.Node { return binY(r) }},
+				{"x = [a.`b`, ", "]", func(r *gen.Node) *gen.Node { return listElem(r, 1) }},
+				{"x = [\"s\", ", ", 1]", func(r *gen.Node) *gen.Node { return listElem(r, 1) }},
+				{"x = [1.5, ", "]", func(r *gen.Node) *gen.Node { return listElem(r, 1) }},
+				{"x = `k q` != ", "", func(r *gen.Node) *gen.Node { return binY(r) }},
+				{"x = a.b == ", "", func(r *gen.Node) *gen.Node { return binY(r) }},
+				{"x = m[\"k\"] == ", "", func(r *gen.Node) *gen.Node { return binY(r) }},
+				{"x = f(.[0], ", ")", func(r *gen.Node) *gen.Node { return listElem(r, 1) }},
+			} {
+				if mask%3 != ci%3 && mask != 0 && mask != 1<<len(kw.w)-1 {
+					continue
+				}
+				src := ctx.pre + string(b) + ctx.post
+				node, _, bad := observe(src, false)
+				if bad != "" {
+					rk.Fail(t, "keywords", replay{Src: src, Kind: "keyword"}, "%s", bad)
+				}
+				if node != nil {
+					node = ctx.dig(node)
+				}
+				if node == nil || node.Kind != kw.kind || (kw.kind == gen.Bool && node.B != kw.b) {
+					got := "rejected or another tree"
+					if node != nil {
+						got = node.Shape()
+					}
+					rk.Fail(t, "keywords", replay{Src: src, Kind: "keyword", Expect: kw.w}, "keyword spelling %q in %q parsed to %s, want %s", string(b), src, got, kw.w)
+				}
+				evid.Case(src, true, "keyword-in-context")
+				n++
+			}
 		}
 	}
-	evid.Exhaustive("keyword-case-patterns", n)
+	evid.Exhaustive("keyword-case-patterns, alone and behind 10 preceding token sequences", n)
 }
 
 func TestReplays(t *testing.T) {
